@@ -225,6 +225,12 @@ func (dbc *DatabaseContext) UpdatePrincipal(ctx context.Context, updates *auth.P
 				base.InfofCtx(ctx, base.KeyAuth, "Error releasing unused sequence %d after CAS retry for principal %s: %v", nextSeq, base.UD(princ.Name()), err)
 			}
 		} else {
+			if err != nil && !base.IsTimeoutError(err) {
+				// the principal was not saved: release the sequence allocated for this update to avoid an abandoned sequence
+				if releaseErr := dbc.sequences.releaseSequence(ctx, nextSeq); releaseErr != nil {
+					base.InfofCtx(ctx, base.KeyAuth, "Error releasing unused sequence %d after failed update of principal %s: %v", nextSeq, base.UD(princ.Name()), releaseErr)
+				}
+			}
 			return replaced, princ, err
 		}
 	}
